@@ -65,7 +65,10 @@ RepeatedFieldPoisons ==
    on or is closed, in bounded time. *)
 StateSequencePoisons ==
   { P("http2", "data-after-end-stream", "any", "down"), P("http2", "empty-data-after-end-stream", "any", "down"),
-    P("http2", "data-after-rst-stream", "any", "down"), P("http2", "data-after-trailers", "any", "down"),
+    P("http2", "data-after-trailers", "any", "down"),
+    \* a request that is opened and never completed: nothing of it may stay behind
+    P("http2", "abandoned-request-reset-then-data", "any", "down"), P("http2", "abandoned-request-reset", "any", "down"),
+    P("http2", "abandoned-request-connection-closed", "incomplete", "down"),
     P("http2", "trailers-after-end-stream", "any", "down"), P("http2", "window-update-idle-stream", "any", "down"),
     P("http2", "data-on-idle-stream", "undecodable", "down"), P("http2", "rst-stream-idle-stream", "undecodable", "down"),
     P("http2", "headers-even-stream-id", "undecodable", "down"), P("http2", "headers-lower-stream-id", "undecodable", "down"),
